@@ -169,6 +169,19 @@ class Kit:
             out[idx] = self.int(f"{name}{list(idx)}".replace(" ", ""), lo, hi)
         return out
 
+    def simplify(self, arr):
+        """ring-normalised copies of spec expressions (symbolic mode); identity in concrete mode"""
+        if self.mode != "sym":
+            return arr
+        a = np.asarray(arr, dtype=object)
+        out = np.empty(a.shape, dtype=object)
+        for idx in np.ndindex(*a.shape):
+            try:
+                out[idx] = self.run.ring.simplified(E.lift(a[idx]))
+            except Exception:
+                out[idx] = a[idx]
+        return out
+
     def value(self, e) -> Any:
         """numeric value of an expression at the current environment"""
         return E.evaluate(E.lift(e), self.env)
@@ -424,7 +437,8 @@ def _reachable_tensors(objs, acc=None, seen=None, what="arg", depth=0):
 def discharge(ob: Ob, run: explore.Run, kit: Kit, timeout_s: float, n_random: int = 6, cheap_only: bool = False):
     t0 = time.time()
     goal = ob.goal
-    run.ring.deadline = t0 + (6.0 if timeout_s <= 10 else 40.0)
+    # CPU-time limit of the ring normaliser for this obligation (process time: does not flip under machine load)
+    run.ring.deadline = time.process_time() + (15.0 if timeout_s <= 10 else 60.0)
     if goal.op == "bconst":
         if goal.args[0]:
             ob.status, ob.backend = "proved", "trivial"
